@@ -68,9 +68,16 @@ def budgetExceeded (b : Backoffer) (name : String) : Bool :=
 
 /-- the error classes the property text allows when the budget is exhausted: the error of a non-excluded kind
     with the largest accumulated sleep (any config known under that name), or the caller's error if nothing slept -/
+def insStr (x : String) : List String → List String
+  | [] => [x]
+  | y :: r => if x < y then x :: y :: r else if x == y then y :: r else y :: insStr x r
+
+/-- sorted, without duplicates (canonical form shared with the Go side) -/
+def sortDedup (l : List String) : List String := l.foldl (fun acc x => insStr x acc) []
+
 def wantLongest (d : DState) (b : Backoffer) : List String :=
   if longest b.sleepMS > 0 then
-    (candidates b.sleepMS).flatMap fun n => ((allCfgs d).filter (·.name == n)).map (·.errK)
+    sortDedup ((candidates b.sleepMS).flatMap fun n => ((allCfgs d).filter (·.name == n)).map (·.errK))
   else [callerK]
 
 def capBound (d : DState) (name : String) : Int :=
